@@ -150,15 +150,15 @@ fn build(dna: &mut Dna, ctx: &mut Ctx) -> Option<Built> {
     let zo = gen_zip_opts(dna);
     let mut po = gen_png_opts(dna, 6000, false);
     let mut out = junk(dna, true, 200);
-    if dna.chance(1) {
-        // the wrapper starts within a few bytes of a power-of-two offset (64 KiB .. 8 MiB)
-        let k = dna.range(16, 23);
-        let d = dna.range(0, 12) as i64 - 6;
-        let n = ((1i64 << k) + d) as usize;
-        let mut mm = Mix::new(dna.u64());
-        out = (0..n).map(|_| safe_junk_byte(&mut mm)).collect();
-        ctx.class("prefix:power-of-two-offset");
-    }
+    // the embedded stream's first byte (for PNG: the first IDAT length field) is placed within a
+    // few bytes of a power-of-two file offset (64 KiB, 1 MiB, 4 MiB, 8 MiB); applied further down
+    let pow2_target: Option<usize> = if dna.chance(3) {
+        let k = [16usize, 20, 22, 23][dna.below(4)];
+        let dd = dna.range(0, 12) as i64 - 6;
+        Some(((1i64 << k) + dd) as usize)
+    } else {
+        None
+    };
     let suffix_n = dna.range(0, 200);
     let mut m = Mix::new(dna.u64());
     // pair mode: another accepted stream sits directly in front, its zlib trailer missing or cut
@@ -294,6 +294,18 @@ fn build(dna: &mut Dna, ctx: &mut Ctx) -> Option<Built> {
         out.extend_from_slice(&member);
         nest_note = "in-stored-zip-member:";
         ctx.class("nested:in-stored-zip-member");
+    }
+    if let Some(target) = pow2_target {
+        if target > s_start {
+            // prepend safe junk so that s_start == target
+            let add = target - s_start;
+            let mut pre: Vec<u8> = Vec::with_capacity(add + out.len());
+            pre.extend((0..add).map(|_| safe_junk_byte(&mut m)));
+            pre.extend_from_slice(&out);
+            out = pre;
+            s_start = target;
+            ctx.class("stream-start:near-power-of-two-offset");
+        }
     }
     out.extend((0..suffix_n).map(|_| safe_junk_byte(&mut m)));
     let variant_class = format!("{}{}{}", nest_note, pair_note, variant_class);
